@@ -262,7 +262,9 @@ func sweepAll(f encFn) ([]run, map[string]interface{}) {
 		}
 		if c == chunks {
 			lo = uint32(chunks)*per + 1
-			hi = oneBits - 1
+		}
+		if hi > oneBits-1 {
+			hi = oneBits - 1 // floats strictly below 1.0
 		}
 		if lo > hi {
 			continue
